@@ -375,7 +375,7 @@ pub fn arb_case(max_rounds: usize) -> impl Strategy<Value = Case> {
 
 pub fn run(ctx: &mut Ctx) {
     ctx.rule = "from genesis, 2..N production rounds on the node's own tip: pool content submitted through Mempool::add_transaction_if_validates (several payers, fees 0..4e8, routing paths of 0..3 valid hops ending at the producer), golden ticket present/absent (added when the density rule demands it), timestamp 1 ms .. 20 s after the parent, then the node's own producer Mempool::bundle_block (=> Block::create); configurations: gp in {4,5,6,8,12,100}, heartbeat in {100,5000}, staking off/on (social stake 2e6), genesis treasury 0 or up to 1e12 (rebroadcast payout multiplier > 1 and 5% cap). oracle (differential): every produced block is accepted as the new tip by the producer itself and, after crossing the wire format, by a second independent node holding the same chain, and both end with identical tip and utxoset. evaluations = blocks produced. non-trivial = history with a produced block carrying >= 1 fee-paying transaction and (golden ticket or rebroadcast or routing path); distinct by case digest".into();
-    let cases = ctx.tier.pick(250u32, 10_000);
+    let cases = ctx.tier.pick(800u32, 10_000);
     pbt_run(ctx, "production_rounds", cases, arb_case(26), |c, case, counting| eval(c, case, counting));
 }
 
